@@ -146,7 +146,9 @@ def counter() -> LineCount:
     import pdfminer.ascii85
     import pdfminer.lzw
     import pdfminer.runlength
-    return LineCount([pdfminer.ascii85.__file__, pdfminer.lzw.__file__, pdfminer.runlength.__file__, base64.__file__])
+    import pdfminer.utils
+    return LineCount([pdfminer.ascii85.__file__, pdfminer.lzw.__file__, pdfminer.runlength.__file__, base64.__file__,
+                      pdfminer.utils.__file__])
 
 
 def call_decoder(dec: str, data: bytes, lc: LineCount):
@@ -225,6 +227,65 @@ def check_stream(ctx: C.Ctx, names: List[bytes], data: bytes, fails: Dict[str, A
     return " ".join(["sdec", str(len(names))] + [n.hex() for n in names] + [hx(data)]), out, inp
 
 
+def check_pred(ctx: C.Ctx, kind: str, colors: int, columns: int, bpc: int, data: bytes, fails: Dict[str, Any]):
+    """utils.apply_png_predictor / apply_tiff_predictor on arbitrary parameters: output <= input (C13_bound_predictors),
+    error caught by PDFStream.decode, line events <= 60 + 30 * (len(data) + row length)."""
+    from pdfminer import pdftypes, utils
+    from pdfminer.psexceptions import PSException
+    lc = counter()
+    inp = {"op": "pred", "kind": kind, "colors": colors, "columns": columns, "bpc": bpc, "data": data.hex()}
+    fn = ((lambda: utils.apply_png_predictor(12, colors, columns, bpc, data)) if kind == "png"
+          else (lambda: utils.apply_tiff_predictor(colors, columns, bpc, data)))
+    where = "codec:" + kind + "-predictor"
+    try:
+        res = lc.run(fn)
+        out = "V " + hx(res)
+        if len(res) > len(data):
+            what = f"{kind} predictor: output longer than the input"
+            fails.setdefault(what, C.Failure(what, inp, "len(out) <= %d" % len(data), "len(out) = %d" % len(res),
+                                             {"cls": "budget", "exc": "", "where": where, "kind": "payload"}))
+    except Exception as e:  # noqa: BLE001
+        out = "E " + type(e).__name__
+        if not (isinstance(e, PSException) or isinstance(e, pdftypes._DECODE_ERRORS)) or isinstance(e, RecursionError):
+            what = f"{kind} predictor raises {type(e).__name__}, which PDFStream.decode does not catch"
+            fails.setdefault(what, C.Failure(what, inp, "an error listed in pdftypes._DECODE_ERRORS or of the family", out,
+                                             {"cls": "internal", "exc": type(e).__name__, "where": where, "kind": "payload"}))
+    rowlen = (colors * columns * bpc + 7) // 8 if kind == "png" else 0     # the PNG code allocates one zero row first
+    bound = 60 + 30 * (len(data) + rowlen)
+    if lc.count > bound:
+        what = f"{kind} predictor: work not linear in the data length"
+        fails.setdefault(what, C.Failure(what, inp, "line events <= %d" % bound, "line events = %d" % lc.count,
+                                         {"cls": "budget", "exc": "", "where": where, "kind": "payload"}))
+    key = "codec_work_peak_permille_" + kind
+    ctx.extra[key] = max(ctx.extra.get(key, 0), 1000 * lc.count // bound)
+    ctx.branch("codec:%s:%s" % (kind, out if out[0] == "E" else "ok"))
+    return "pred %s %d %d %d %s" % (kind, colors, columns, bpc, hx(data)), out, inp
+
+
+def run_pred(ctx: C.Ctx, lines: List[str], impl: List[str], meta: List[Any], fails: Dict[str, Any]) -> None:
+    rng = ctx.rng
+    for ci in range(ctx.n(120, 3000)):
+        kind = "png" if ci % 3 else "tiff"
+        colors = rng.choice([0, 1, 1, 2, 3, 4, 7])
+        columns = rng.choice([0, 1, 2, 3, 5, 8, 17, 40])
+        bpc = rng.choice([8, 8, 8, 8, 8, 1, 1, 1, 4, 0, 16])
+        row = (colors * columns * bpc + 7) // 8 if kind == "png" else colors * columns
+        nrows = rng.randint(0, 4)
+        data = bytearray()
+        for _ in range(nrows):
+            if kind == "png":
+                data.append(rng.choice([0, 1, 2, 3, 4] * 4 + [5, rng.randrange(256)]))
+            data += bytes(rng.randrange(256) for _ in range(min(row, 64)))
+        r = rng.random()
+        if r < 0.3 and data:
+            data = data[:rng.randrange(len(data))]            # short last row
+        elif r < 0.4:
+            data += bytes(rng.randrange(256) for _ in range(rng.randint(1, 5)))
+        line, out, inp = check_pred(ctx, kind, colors, columns, bpc, bytes(data), fails)
+        lines.append(line); impl.append(out); meta.append(("pred:" + kind, inp))
+        ctx.case(("pred", kind, colors, columns, bpc, bytes(data)), len(data) > 0)
+
+
 def run_codec(ctx: C.Ctx) -> None:
     import logging
     logging.getLogger("pdfminer").setLevel(logging.CRITICAL)
@@ -264,6 +325,7 @@ def run_codec(ctx: C.Ctx) -> None:
         lines.append(line); impl.append(out); meta.append(("dec:" + dec, inp))
         ctx.case(("dec", dec, data), True)
     run_calls(ctx, lines, impl, meta, fails)
+    run_pred(ctx, lines, impl, meta, fails)
     for f in fails.values():
         ctx.fail(f)
     if ctx.driver is None:
@@ -326,6 +388,8 @@ def replay_codec(ctx: C.Ctx, inp: Dict[str, Any]) -> bool:
         check_decoder(ctx, inp["dec"], bytes.fromhex(inp["data"]), "replay", fails)
     elif op == "sdec":
         check_stream(ctx, [bytes.fromhex(n) for n in inp["names"]], bytes.fromhex(inp["data"]), fails)
+    elif op == "pred":
+        check_pred(ctx, inp["kind"], int(inp["colors"]), int(inp["columns"]), int(inp["bpc"]), bytes.fromhex(inp["data"]), fails)
     elif op == "calls":
         from harness.props import c13_model as M
         g = {int(n): M.untok(t.split(" "))[0] for n, t in inp["graph"].items()}
